@@ -11,6 +11,7 @@ import (
 
 	"github.com/advancedclimatesystems/gonnx"
 	"github.com/advancedclimatesystems/gonnx/onnx"
+	"github.com/advancedclimatesystems/gonnx/ops"
 	"github.com/advancedclimatesystems/gonnx/ops/opset13"
 	"google.golang.org/protobuf/proto"
 	"gorgonia.org/tensor"
@@ -372,3 +373,5 @@ func agreeLevels(a, b opResult) string {
 	}
 	return ""
 }
+
+func getOperator(name string) (ops.Operator, error) { return opset13.GetOperator(name) }
